@@ -177,7 +177,7 @@ pub fn run(cfg: &Cfg) -> i32 {
             let mut src = MoveSource::Explicit { moves: &ms, i: 0 };
             engine::run_one(ctx, |ctx| check_history(ctx, &start, &mut src, ms.len()))?;
         }
-        let starts = ["draw-rights", "draw-rights-b", "castle-all", "castle-all-b", "draw-bare", "draw-knights", "kiwipete", "start", "castle-partial-Kq", "mid-endgame", "ep-two-capturers", "san-rooks-black", "ep-rank-pin-w", "ep-opening", "ep-diag-pin-b", "ep-two-capturers-b"];
+        let starts = ["draw-rights", "draw-rights-b", "castle-all", "castle-all-b", "draw-bare", "draw-knights", "kiwipete", "start", "castle-partial-Kq", "mid-endgame", "ep-two-capturers", "san-rooks-black", "ep-rank-pin-w", "ep-opening", "ep-diag-pin-b", "ep-two-capturers-b", "ep-diag-legal-shuffle-b", "ep-diag-legal-shuffle-w", "ep-diag-stay-w"];
         let pol = [Policy::ReversibleNoThird, Policy::SeekRepetition, Policy::Reversible, Policy::ReversibleNoThird];
         let strat = gen::raw_hist_strategy(100, 260);
         engine::pbt(ctx, seedf(1), cfg.per_shard(20_000, 300_000), &strat, |ctx, raw: &RawHist| {
